@@ -28,7 +28,7 @@ CONSTANTS NAdd(_, _), NSub(_, _), NMul(_, _), NLe(_, _), NZero, NOne, NScale
 VARIABLES
     conf,     \* [id, start, period : Int, factor, ps, pp, pd, pc : Dec,
               \*  recv : Seq([w : Dec, to : 0..nrcv]) (to = 0: empty address = community pool),
-              \*  nrcv : Nat, pi : "none" | "gauges" | "mixed"]  (constant within a history)
+              \*  nrcv : Nat, pi : "none" | "zero" | "gauges" | "mixed"]  (constant within a history)
     epoch,    \* number of the last epoch whose end was signalled
     prov,     \* epoch provision (Dec)
     lastRed,  \* last reduction epoch
@@ -100,7 +100,7 @@ DevDust(o) == IF conf.recv = <<>> THEN NZero ELSE NSub(o.dev, SumAll(o.pay, 1))
 
 PoolHook(o) == LET p == NAdd(bal.pool, o.pl) IN
     /\ NLe(NZero, o.x) /\ NLe(NZero, o.y) /\ NLe(NAdd(o.x, o.y), p)
-    /\ conf.pi = "none" => (o.x = p /\ o.y = NZero)      \* no distribution records: all to the community pool
+    /\ conf.pi \in {"none", "zero"} => (o.x = p /\ o.y = NZero)  \* no distribution records, or records of total weight zero: all to the community pool
     /\ conf.pi = "gauges" => o.x = NZero                 \* records for gauges only
 
 Skip(n) ==
